@@ -448,3 +448,103 @@ Proof.
     cbn [map]. rewrite (RelConvP.acc_p_of p Hp), (IH Hg). reflexivity. }
   rewrite Eq, Ea, Epr. reflexivity.
 Qed.
+
+(* ---- entries, the field ---- *)
+Lemma conv_arels_elems rs : forall r last, forallb relation_okb (r :: rs) = true ->
+  res_all to_lossy (nodes_of RELATION (arels_elems (al_rel (nonempty_list rs) r) (al_alts rs) last)) = Ok (r :: rs).
+Proof.
+  induction rs as [|r' rs IH]; intros r last H; cbn [forallb] in H; apply andb_true_iff in H; destruct H as [Hr Hrs];
+    cbn [al_alts arels_elems nonempty_list].
+  - change (nodes_of RELATION (arel_tree ?x last :: ?y)) with (arel_tree x last :: nodes_of RELATION y).
+    assert (E : nodes_of RELATION (if last then elems (arel_left (al_rel false r) last) else []) = [])
+      by (destruct last; [apply nodes_of_elems|reflexivity]).
+    rewrite E. cbn [res_all]. rewrite (to_lossy_arel false last r Hr). reflexivity.
+  - change (nodes_of RELATION (arel_tree ?x false :: ?y)) with (arel_tree x false :: nodes_of RELATION y).
+    rewrite nodes_of_app, nodes_of_elems. cbn [app].
+    change (nodes_of RELATION (Tok PIPE [124%N] :: ?x)) with (nodes_of RELATION x).
+    rewrite nodes_of_app, nodes_of_elems. cbn [app res_all].
+    rewrite (to_lossy_arel true false r Hr), (IH r' last Hrs). reflexivity.
+Qed.
+Lemma entry_to_lossy_aentry r rs last : forallb relation_okb (r :: rs) = true ->
+  entry_to_lossy (Node ENTRY (arels_elems (al_rel (nonempty_list rs) r) (al_alts rs) last)) = Ok (r :: rs).
+Proof. intros H. exact (conv_arels_elems rs r last H). Qed.
+
+Lemma conv_aitems_elems es : forall e, forallb entry_okb (e :: es) = true ->
+  res_all entry_to_lossy (nodes_of ENTRY (aitems_elems (al_item e) (map (fun e' => ([tSP], al_item e')) es))) = Ok (e :: es).
+Proof.
+  induction es as [|e' es IH]; intros e H; cbn [forallb] in H; apply andb_true_iff in H; destruct H as [He Hes];
+    destruct e as [|r rs]; try discriminate; cbn [entry_okb] in He.
+  - cbn [map aitems_elems al_item aitem_elems is_nil app]. rewrite app_nil_r.
+    change (nodes_of ENTRY (Node ENTRY ?c :: ?x)) with (Node ENTRY c :: nodes_of ENTRY x).
+    rewrite nodes_of_elems. cbn [res_all]. rewrite (entry_to_lossy_aentry r rs true He). reflexivity.
+  - cbn [map aitems_elems al_item aitem_elems is_nil]. rewrite nodes_of_app.
+    change (nodes_of ENTRY (Node ENTRY ?c :: ?x)) with (Node ENTRY c :: nodes_of ENTRY x).
+    rewrite nodes_of_elems. change (nodes_of ENTRY (Tok COMMA [44%N] :: ?x)) with (nodes_of ENTRY x).
+    rewrite nodes_of_app, nodes_of_elems. cbn [app res_all]. rewrite (entry_to_lossy_aentry r rs false He).
+    rewrite (IH e' Hes). reflexivity.
+Qed.
+
+Lemma field_to_lossy_atree rs : relations_okb rs = true -> field_to_lossy (atree_of (al_of rs)) = Ok rs.
+Proof.
+  intros H. destruct rs as [|e es]; [reflexivity|].
+  unfold field_to_lossy, relations_entries, r_entries, rnodes_of_kind, atree_of, al_of. cbn [children af_lead af_first af_rest].
+  change (elems []) with (@nil rtree). cbn [app].
+  fold (nodes_of ENTRY (aitems_elems (al_item e) (map (fun e' => ([tSP], al_item e')) es))).
+  apply conv_aitems_elems. exact H.
+Qed.
+
+(* ================================================================== clause 3 for every valid value *)
+Theorem read_field_all rs : relations_okb rs = true ->
+  exists t, RelParse.relations_from_str (print_relations dv_print rs) = Ok t /\
+            parse_relaxed (print_relations dv_print rs) true = Ok (t, 0) /\
+            text t = print_relations dv_print rs /\
+            field_to_lossy t = Ok rs.
+Proof.
+  intros H. exists (atree_of (al_of rs)). destruct (al_of_render rs H) as [Hr _].
+  destruct (liberal_sound true (al_of rs) (al_of_awf true rs H)) as (P & T & _).
+  destruct (liberal_sound false (al_of rs) (al_of_awf false rs H)) as (Pf & _ & _).
+  rewrite Hr in P, T, Pf. split; [|split; [exact P|split; [exact T|apply field_to_lossy_atree, H]]].
+  unfold RelParse.relations_from_str. unfold parse_relaxed in Pf. rewrite Pf. reflexivity.
+Qed.
+
+Theorem read_field_as_lossy_all rs : relations_okb rs = true ->
+  read_field_as_lossy (print_relations dv_print rs) = Ok rs.
+Proof. intros H. destruct (read_field_all rs H) as (t & S & _ & _ & L). unfold read_field_as_lossy. rewrite S. exact L. Qed.
+
+Lemma entries_single_a r rs :
+  r_entries (atree_of (al_of [r :: rs])) = [Node ENTRY (arels_elems (al_rel (nonempty_list rs) r) (al_alts rs) true)].
+Proof.
+  unfold r_entries, rnodes_of_kind, atree_of, al_of. cbn [children af_lead af_first af_rest map].
+  change (elems []) with (@nil rtree). cbn [app aitems_elems al_item aitem_elems is_nil]. rewrite app_nil_r.
+  fold (nodes_of ENTRY (Node ENTRY (arels_elems (al_rel (nonempty_list rs) r) (al_alts rs) true)
+                        :: elems (arels_left (al_rel (nonempty_list rs) r) (al_alts rs) true))).
+  change (nodes_of ENTRY (Node ENTRY ?c :: ?x)) with (Node ENTRY c :: nodes_of ENTRY x). rewrite nodes_of_elems. reflexivity.
+Qed.
+
+Theorem read_entry_as_lossy_all e : entry_okb e = true -> read_entry_as_lossy (print_entry dv_print e) = Ok e.
+Proof.
+  intros H. destruct e as [|r rs]; [discriminate|].
+  assert (Hf : relations_okb [r :: rs] = true) by (unfold relations_okb; cbn [forallb]; rewrite andb_true_r; exact H).
+  destruct (read_field_all [r :: rs] Hf) as (t & S & _ & _ & _).
+  assert (Et : t = atree_of (al_of [r :: rs])).
+  { destruct (al_of_render _ Hf) as [Hr _]. destruct (liberal_sound false _ (al_of_awf false _ Hf)) as (Pf & _ & _).
+    rewrite Hr in Pf. unfold RelParse.relations_from_str in S. unfold parse_relaxed in Pf. rewrite Pf in S. congruence. }
+  subst t. change (print_relations dv_print [r :: rs]) with (print_entry dv_print (r :: rs)) in S.
+  unfold read_entry_as_lossy, entry_from_str. rewrite S, entries_single_a. cbn [bind].
+  apply entry_to_lossy_aentry. exact H.
+Qed.
+
+Theorem read_as_lossy_all r : relation_okb r = true -> read_as_lossy (print_relation dv_print r) = Ok r.
+Proof.
+  intros H. assert (Hf : relations_okb [[r]] = true) by (cbn; rewrite H; reflexivity).
+  destruct (read_field_all [[r]] Hf) as (t & S & _ & _ & _).
+  assert (Et : t = atree_of (al_of [[r]])).
+  { destruct (al_of_render _ Hf) as [Hr _]. destruct (liberal_sound false _ (al_of_awf false _ Hf)) as (Pf & _ & _).
+    rewrite Hr in Pf. unfold RelParse.relations_from_str in S. unfold parse_relaxed in Pf. rewrite Pf in S. congruence. }
+  subst t. change (print_relations dv_print [[r]]) with (print_relation dv_print r) in S.
+  unfold read_as_lossy, RelParse.relation_from_str, entry_from_str. rewrite S, entries_single_a.
+  cbn [al_alts nonempty_list arels_elems]. unfold r_relations, rnodes_of_kind. cbn [children].
+  fold (nodes_of RELATION (arel_tree (al_rel false r) true :: elems (arel_left (al_rel false r) true))).
+  change (nodes_of RELATION (arel_tree ?x true :: ?y)) with (arel_tree x true :: nodes_of RELATION y). rewrite nodes_of_elems.
+  cbn [bind]. apply to_lossy_arel, H.
+Qed.
